@@ -131,14 +131,6 @@ def childProbeAns (kind b : String) : String :=
   | some t => t.2.2
   | none => "bad-op"
 
-/-- `bigbatch`: n Sets in one batch.  bolt writes the batch by itself when it reaches 100000 ops (`boltMaxBatchSize`), badger's
-WriteBatch commits by itself whenever its transaction is full: both make a part of the batch visible BEFORE Write -/
-def bigBatchEarly (e : Engine) (n : Nat) : Nat :=
-  match e with
-  | .bolt => if n > 100000 then 2 else 0
-  | .bdg => if n ≥ 40000 then 2 else 0      -- pinned for n = 40000 (64-byte values); small batches: 0
-  | _ => 0
-
 def underOp (op : String) : Option String :=
   if op == "uset" || op == "udel" || op == "uget" || op == "uiter" || op == "uriter" then some ((op.drop 1).toString) else none
 
